@@ -73,6 +73,10 @@ def bounded_unitary(which):
     elif which == 'mdft-czt-full-band-roundtrip':
         tight = dict(rtol=1e-10, atol=1e-12)
         # any output size M >= m is a complete band at Q = M / m (per axis): terminating and non-terminating ratios alike
+        if rng.random() < 0.4:
+            # larger fields: band sizes whose ratio M / m is not exactly representable (11 -> 25, 19 -> 21, 21 -> 23 ...)
+            m, n = int(rng.integers(9, 25)), int(rng.integers(9, 25))
+            f = vary_layout(rng, rng.standard_normal((m, n)) + 1j * rng.standard_normal((m, n)))
         M, N = m + int(rng.integers(0, 2 * m + 1)), n + int(rng.integers(0, 2 * n + 1))
         if rng.random() < 0.3:
             k = int(rng.integers(1, 4))
